@@ -46,6 +46,13 @@ P('C17','branch-fact (gate) rules, must-pass-through/ordering rules on the CFG, 
   "Decides on every path of proxy/gzip: compression is chosen only under acceptsGzip and isCompressable (already-encoded responses refused, content-type expression consulted); on the compress edge Content-Length is removed and Content-Encoding set before the headers are sent, and only there; the status code is forwarded unchanged everywhere; the writer is decided once and never used undecided; the pooled gzip.Writer goes Get -> Reset(this response) -> use -> Close -> Put with the Close deferred in the handler and nothing after Put; Write forwards its argument unchanged; Vary is added on every path. That compress/gzip round-trips the bytes is library behaviour and not decided.",
   COMMON_NOTE)
 
+P('C07','gate dominance, effect (who-may-write) rules on the request, value-flow and ordering rules on the target URL, sibling agreement of response-writer wrappers',
+  "Decides on every path: no upstream contact without a route; the no-route edge answers with the configured status and page; the Director and ServeHTTP write only the URL parts and the managed forwarding headers of the request (method, body, other headers untouched), rewrite Host only under the route's host option, transform RawPath together with Path under strip/prepend and always normalise to an absolute path, put the route's query in front of the client's; response-writer wrappers forward unchanged. Body bytes, chunking and hop-by-hop handling are delegated to net/http/httputil and not decided.",
+  COMMON_NOTE)
+P('C08','control-dependence and value-flow (taint) rules on header writes, ordering (no path from Host rewrite to header derivation), sibling agreement of Upgrade tests',
+  "Decides on every path of addHeaders/ServeHTTP: authoritative headers are Set from the connection independent of anything the client sent (TLS header Set/Del exhaustive over r.TLS), default headers only when absent and derived from the connection / requested host, forwarding headers derived before any Host rewrite, all Upgrade tests agree, the websocket X-Forwarded-For ends with the peer, HSTS only on TLS responses, request id always from the generator, host/port splits bracket-aware. Header text formats (Forwarded, protocol names) are string contents and not decided.",
+  COMMON_NOTE)
+
 checks=[]; na=[]
 for p in props:
     id=p['id']
